@@ -173,11 +173,17 @@ func (c *Calcium) doCreateWorkloads(ctx context.Context, opts *types.DeployOptio
 					return
 				}
 				for nodename, rollbackIndices := range rollbackMap {
-					if e := c.withNodePodLocked(ctx, nodename, func(ctx context.Context, _ *types.Node) error {
+					if e := c.withNodePodLocked(ctx, nodename, func(ctx context.Context, node *types.Node) error {
 						rollbackResources := utils.Map(rollbackIndices, func(idx int) resourcetypes.Resources {
 							return workloadResourcesMap[nodename][idx]
 						})
-						return c.rmgr.RollbackAlloc(ctx, nodename, rollbackResources)
+						if err := c.rmgr.RollbackAlloc(ctx, nodename, rollbackResources); err != nil {
+							return err
+						}
+						// the remap at the end of the deployment on this node still saw the cores of the
+						// failed instances as taken: remap again now that they are free
+						_ = c.pool.Invoke(func() { c.RemapResourceAndLog(ctx, logger, node) })
+						return nil
 					}); e != nil {
 						logger.Error(ctx, e)
 						err = e
